@@ -1,0 +1,13 @@
+//go:build verif
+
+package local
+
+// VerifHook is a gate: it is called outside of any lock and may block the
+// calling goroutine. It is installed by the verification harness only.
+var VerifHook func(point string, file string)
+
+func verifPoint(point string, file string) {
+	if h := VerifHook; h != nil {
+		h(point, file)
+	}
+}
